@@ -9,11 +9,13 @@ def tup(x):
     return tuple(tup(y) for y in x) if isinstance(x, list) else x
 
 
-def check_accepts(acc, spec, L):
+def check_accepts(acc, spec, L, morph=False, prev=None):
     from gambatools.cfg_algorithms import cfg_accepts_word
-    rp = {'fn': 'mc.props.c07:one_accepts', 'mode': 'plain', 'params': {'spec': spec, 'L': L}}
-    inst = {'grammar': cfg.show(spec)}
-    G = cfg.to_lib(spec)
+    rp = {'fn': 'mc.props.c07:one_accepts', 'mode': 'plain', 'params': {'spec': spec, 'L': L, 'prev': prev, 'morph': morph}}
+    inst = {'grammar': cfg.show(spec), 'start': spec[4]}
+    if prev is not None:
+        inst['queried_before_in_the_same_process'] = cfg.show(prev) + ' (start {})'.format(prev[4])
+    G = cfg.morph(spec) if morph else cfg.to_lib(spec)
     before = cfg.from_lib(G)
     lang, _ = cfg.language(spec, L)
     acc.states += 1
@@ -38,8 +40,12 @@ def check_accepts(acc, spec, L):
         acc.viol('cfg_accepts_word', 'argument grammar was modified', inst, repro=rp, observed=str(e))
 
 
-def one_accepts(acc, spec, L):
-    check_accepts(acc, tup(spec), L)
+def one_accepts(acc, spec, L, prev=None, morph=False):
+    if morph:
+        cfg._LIVE.clear()
+    if prev is not None:
+        check_accepts(core.Acc(), tup(prev), L, morph)
+    check_accepts(acc, tup(spec), L, morph, tup(prev) if prev is not None else None)
 
 
 def check_cyk(acc, spec, L):
@@ -80,9 +86,17 @@ def one_cyk(acc, spec, L):
 
 def t_accepts(acc, space, L, shard, nshard, stride=1, offset=0):
     gen = cfg.cfg2(space == 'cfg2+')
+    cfg._LIVE.clear()
     for idx, spec in gen:
         if idx % stride == offset % stride and (idx // stride) % nshard == shard:
             check_accepts(acc, spec, L)
+            # the same rules with the other variable as start variable, queried right afterwards in the same process
+            alt = ('cfg', spec[1], spec[2], spec[3], 'A')
+            if (idx // stride) % 4 == 0:
+                check_accepts(acc, alt, L, prev=spec)
+            if (idx // stride) % 8 == 1:
+                check_accepts(acc, spec, L, morph=True)
+                check_accepts(acc, alt, L, morph=True, prev=spec)
 
 
 def t_big(acc, L):
@@ -113,4 +127,4 @@ def plan(tier, seed):
     tasks.append(('plain', P + 't_big', {'L': 3}))
     return {'tasks': tasks, 'bounds': {'spaces': bounds}, 'exhaustive': True,
             'rule': 'every grammar of the space x every word over {a,b} up to L (membership vs least-fixpoint language); every CNF grammar x every non-empty word x every cell i<=j (vs span fixpoint); non-trivial = language neither empty nor everything / some cell of a span >= 2 holds >= 2 variables',
-            'assumptions': ['cells outside 0 <= i <= j < |w| are ignored (the table is a defaultdict)']}
+            'assumptions': ['cells outside 0 <= i <= j < |w| are ignored (the table is a defaultdict)', 'one grammar in four is queried a second time with the other variable as start variable (same rule list) and one in eight through a live CFG object rewritten in place (detects conversion caches keyed on too little)']}
